@@ -12,6 +12,11 @@ EVIDENCE = os.path.join(ROOT, "evidence")
 
 MATRIX = [(1, 1), (1, 4), (2, 3), (2, 5), (3, 2), (4, 1), (4, 4), (4, 8), (5, 5), (7, 2), (8, 1), (8, 3), (12, 4), (16, 1), (16, 2),
           (16, 3), (16, 8), (24, 2), (32, 4), (48, 3), (64, 2), (255, 2)]
+# real ciphers (thorough tier): the pseudo-width names the cipher; the harness drives it through its real backend
+# and logs every block, the log is the model's cipher for that case (harness/src/logged.rs, Driver/Proto.lean)
+MATRIX_REAL = [(16, 101), (16, 102), (16, 103), (16, 104), (8, 105)]
+REAL_NAMES = {101: "aes128", 102: "aes256", 103: "belt-block", 104: "kuznyechik", 105: "magma"}
+REAL_P = 0.0          # probability with which gens.pick_matrix picks a real cipher (set by ./check in the thorough tier)
 BLOCK_MODES = ["cbc-enc", "cbc-dec", "pcbc-enc", "pcbc-dec", "ige-enc", "ige-dec", "cfb-enc", "cfb-dec",
                "cfb8-enc", "cfb8-dec", "ofb-enc", "ofb-dec"]
 CTR_FLAVORS = {"ctr32be": (32, True), "ctr32le": (32, False), "ctr64be": (64, True), "ctr64le": (64, False),
@@ -21,13 +26,14 @@ CTS_MODES = ["cbccs1", "cbccs2", "cbccs3", "ecbcs1", "ecbcs2", "ecbcs3"]
 SN_MAX = {"i32": 2**31 - 1, "u32": 2**32 - 1, "u64": 2**64 - 1, "u128": 2**128 - 1, "usize": 2**64 - 1}
 
 
-def matrix_for(mode):
+def matrix_for(mode, matrix=None):
+    matrix = MATRIX if matrix is None else matrix
     if mode in CTR_FLAVORS:
         cs = CTR_FLAVORS[mode][0] // 8
-        return [(b, w) for (b, w) in MATRIX if b % cs == 0]
+        return [(b, w) for (b, w) in matrix if b % cs == 0]
     if mode == "belt":
-        return [(b, w) for (b, w) in MATRIX if b == 16]
-    return MATRIX
+        return [(b, w) for (b, w) in matrix if b == 16]
+    return matrix
 
 
 def hx(b):
@@ -89,11 +95,18 @@ class Case:
         self.meta = meta
         self.cid = None
 
-    def header(self, cid):
-        return f"case {cid} {self.family} {self.mode} bs={self.bs} w={self.w} key={hx(self.key)} iv={hx(self.iv)}"
+    def header(self, cid, with_tab=False):
+        h = f"case {cid} {self.family} {self.mode} bs={self.bs} w={self.w} key={hx(self.key)} iv={hx(self.iv)}"
+        if with_tab and self.w >= 101:
+            h += " tab=" + self.meta.get("tab", "-")
+        return h
 
-    def text(self, cid=None):
-        return "\n".join([self.header(self.cid if cid is None else cid)] + self.ops + ["end"]) + "\n"
+    def real(self):
+        return self.w >= 101
+
+    def text(self, cid=None, with_tab=False, ask_table=False):
+        return "\n".join([self.header(self.cid if cid is None else cid, with_tab)] + self.ops +
+                         (["table"] if ask_table and self.real() else []) + ["end"]) + "\n"
 
     def shape(self):
         """hash key for 'distinct' counting: type, sizes, op shapes and lengths (not the random bytes)."""
@@ -106,7 +119,8 @@ class Case:
     def nontrivial(self):
         return any(o.split()[0] in ("block", "blockb", "blocks", "blocksb", "data", "apply", "applyb", "enc", "dec",
                                     "encb", "decb", "oneshot", "oneshotb", "padenc", "paddec", "ksblock", "ksblocks",
-                                    "applyblocks", "applyblocksb", "seek", "newslice", "debug", "E", "D") for o in self.ops)
+                                    "applyblocks", "applyblocksb", "seek", "newslice", "debug", "E", "D", "backend", "applyblock", "applyblockb",
+                                    "ksdirect") for o in self.ops)
 
 
 class ExecError(Exception):
@@ -169,7 +183,7 @@ def execute(cases, hbin, layers=("impl", "spec"), shards=12, timeout=600):
         return {k: [] for k in ("H",) + tuple(layers)}
     shards = max(1, min(shards, n // 20 + 1))
     bounds = [(n * i // shards, n * (i + 1) // shards) for i in range(shards)]
-    texts = ["".join(c.text() for c in cases[a:b]).encode() for a, b in bounds]
+    texts = ["".join(c.text(ask_table=True) for c in cases[a:b]).encode() for a, b in bounds]
     res = {}
 
     def work(j):
@@ -191,6 +205,13 @@ def execute(cases, hbin, layers=("impl", "spec"), shards=12, timeout=600):
                     res.setdefault("_errors", []).append((name, si, rc, err[-400:]))
 
     collect([("H", si, [hbin], t) for si, t in enumerate(texts)])
+    # real-cipher cases: the last observation is the table of logged blocks; it becomes the model's cipher
+    for c in cases:
+        if c.real():
+            h = res["H"][c.cid]
+            if h and h[-1].startswith("table "):
+                c.meta["tab"] = h[-1][6:]
+                res["H"][c.cid] = h[:-1]
     if layers:
         # the definition leaves open whether a seek beyond the keystream end succeeds: tell the model
         # drivers what the implementation answered (used by the spec layer for its position only)
@@ -201,9 +222,9 @@ def execute(cases, hbin, layers=("impl", "spec"), shards=12, timeout=600):
                 h = res["H"][c.cid]
                 if h is not None and any(o.startswith("seek ") for o in c.ops):
                     ops = [o + (" hint=ok" if o.startswith("seek ") and i < len(h) and h[i] == "ok" else "") for i, o in enumerate(c.ops)]
-                    parts.append("\n".join([c.header(c.cid)] + ops + ["end"]) + "\n")
+                    parts.append("\n".join([c.header(c.cid, with_tab=True)] + ops + ["end"]) + "\n")
                 else:
-                    parts.append(c.text())
+                    parts.append(c.text(with_tab=True))
             texts2.append("".join(parts).encode())
         collect([(ly, si, [DRIVER, ly], t) for si, t in enumerate(texts2) for ly in layers])
     return res
